@@ -266,6 +266,16 @@ func zero(t types.Type) value {
 // slice returns x[lo:hi:max].  Any of lo, hi and max may be nil.
 func slice(i *interpreter, x, lo, hi, max value) value {
 	var Len, Cap int
+	if ss, ok := x.(symstr); ok {
+		l := int64(0)
+		if lo != nil {
+			l = i.sliceBound(lo, 0, int64(ss.length()), "slice low")
+		}
+		if hi != nil && i.sliceBound(hi, 0, int64(ss.length()), "slice high") != int64(ss.length()) || l > int64(len(ss.prefix)) {
+			panic(unsupported{"slicing inside a symbolic string atom"})
+		}
+		return symstr{prefix: ss.prefix[l:], id: ss.id}
+	}
 	switch x := x.(type) {
 	case string:
 		Len = len(x)
@@ -1031,6 +1041,8 @@ func callBuiltin(caller *frame, callpos token.Pos, fn *ssa.Builtin, args []value
 		switch x := args[0].(type) {
 		case string:
 			return len(x)
+		case symstr:
+			return x.length()
 		case array:
 			return len(x)
 		case *value:
